@@ -10,6 +10,7 @@ import (
 	"encoding/json"
 	"fmt"
 	"net"
+	"strings"
 	"sync"
 	"time"
 
@@ -82,6 +83,22 @@ func routesFor(r *Run) (routes string, outerTimeout string) {
 		return drive.J([]any{map[string]any{
 			"match":  []any{map[string]any{"verif_m1": map[string]any{"id": "one", "need": 1, "at": 0, "eq": 'x'}}},
 			"handle": []any{map[string]any{"handler": "verif_sink", "name": "H", "bufsize": 64}}}}), T
+	case "aftermatch-empty", "aftermatch-empty-nomatcher", "aftermatch-take":
+		// the route that matches is the last one of a subroute and has no handlers (or only a non-terminal one):
+		// the handler that follows the subroute runs after a match, so the subroute's deadline must not limit it
+		inner := map[string]any{}
+		if r.Variant != "aftermatch-empty-nomatcher" {
+			inner["match"] = []any{map[string]any{"verif_m1": map[string]any{"id": "one", "need": 1, "at": 0, "eq": 'x', "pattern": "peek"}}}
+		}
+		if r.Variant == "aftermatch-take" {
+			inner["handle"] = []any{map[string]any{"handler": "verif_take", "name": "T", "n": 1}}
+		}
+		f := false
+		sub := map[string]any{"handler": "subroute", "matching_timeout": T, "routes": []any{
+			map[string]any{"match": []any{map[string]any{"verif_m2": map[string]any{"id": "never", "need": 0, "const": f}}},
+				"handle": []any{map[string]any{"handler": "verif_sink", "name": "H2"}}},
+			inner}}
+		return drive.J([]any{map[string]any{"handle": []any{sub, map[string]any{"handler": "verif_sink", "name": "H", "bufsize": 64}}}}), "30s"
 	case "after-nonterminal":
 		// a route that matches on the first byte and is not terminal, then an undecided route: the timeout
 		// still bounds the matching that continues after the first route
@@ -138,7 +155,8 @@ func run(c *fw.Ctx) {
 					}
 				}
 				// extra variants, on tcp
-				for _, v := range []string{"subroute", "http", "wrapper", "errmatcher", "aftermatch", "after-nonterminal", "or-sets"} {
+				for _, v := range []string{"subroute", "http", "wrapper", "errmatcher", "aftermatch", "after-nonterminal", "or-sets",
+					"aftermatch-empty", "aftermatch-empty-nomatcher", "aftermatch-take"} {
 					idx++
 					cl := "trickle"
 					if v == "wrapper" && int(ph*100)%2 == 1 {
@@ -288,7 +306,7 @@ func runTCP(canary *oracle.Canary, r *Run) *outcome {
 	go func() {
 		defer close(clientDone)
 		switch {
-		case r.Variant == "aftermatch":
+		case strings.HasPrefix(r.Variant, "aftermatch"):
 			_, _ = client.Write([]byte("x1"))
 			select {
 			case <-time.After(2*T + 100*time.Millisecond):
@@ -337,7 +355,11 @@ func runTCP(canary *oracle.Canary, r *Run) *outcome {
 	}()
 	defer func() { close(stopClient); <-clientDone; _ = client.Close() }()
 
-	if r.Variant == "aftermatch" {
+	if strings.HasPrefix(r.Variant, "aftermatch") {
+		want := "x1LATE-DATA"
+		if r.Variant == "aftermatch-take" {
+			want = "1LATE-DATA"
+		}
 		ok := rec.WaitDone("H", 2*T+slack+5*time.Second)
 		got := rec.Stream("H")
 		o.observed["sink_bytes"] = string(got)
@@ -349,8 +371,8 @@ func runTCP(canary *oracle.Canary, r *Run) *outcome {
 			o.violations = append(o.violations, "e-handler-stalled|a handler that runs after a match did not finish within 2x timeout + slack")
 			return o
 		}
-		if string(got) != "x1LATE-DATA" {
-			o.violations = append(o.violations, fmt.Sprintf("e-deadline-armed-after-match|a sink running after the route matched read %q instead of %q: data sent 2x timeout after the match was cut off", got, "x1LATE-DATA"))
+		if string(got) != want {
+			o.violations = append(o.violations, fmt.Sprintf("e-deadline-armed-after-match|a sink running after the route matched read %q instead of %q: data sent 2x timeout after the match was cut off", got, want))
 		}
 		// the read deadline must have been cleared before the handler's reads
 		lastDL := time.Time{}
